@@ -20,7 +20,8 @@ var bPkgPool = []string{
 	"git::https://example.com/p0.git", "git::https://example.com/p1.git", "https://example.com/a2.tar.gz",
 	"git::https://example.com/q3.git?ref=v1", "git::ssh://example.com/s4.git", "https://example.com/dl/a5.tgz?x=y",
 }
-var bRegPool = []string{"example.com/ns/m0/aws", "ns/m1/aws", "example.com/ns/m2/azurerm"}
+// the first two differ in the registry host only (seed C17-c: tables keyed without the host)
+var bRegPool = []string{"example.com/ns/m0/aws", "other.example.org/ns/m0/aws", "ns/m1/aws", "example.com/ns/m2/azurerm"}
 var bVerPool = []string{"1.0.0", "1.1.0", "1.2.3", "2.0.0", "2.1.0-beta1", "0.9.0", "1.10.0"}
 var bSubPool = []string{"", "m", "m/n", "k", "a/b"}
 var bRelPool = []string{"./k", "../", "../k", "./m/n", "../../x", "../../..", "./", "../m", "./a/b"}
@@ -484,6 +485,7 @@ func judgeBuild(rep *Report, c *bCase, run *bRun, i int) {
 		k := X(a.pkg) + ":" + X(a.sub) + ":" + fmt.Sprint(a.f)
 		if !got[k] {
 			fail("C08", fmt.Sprintf("reachable artefact %s//%s (finder %d) was never analysed", a.pkg, a.sub, a.f))
+			fail("C14", fmt.Sprintf("(source address, finder) pair %s//%s (finder %d) analysed 0 times in a fault-free build, not exactly once", a.pkg, a.sub, a.f))
 		}
 		delete(got, k)
 	}
